@@ -543,6 +543,8 @@ def _(p):
     d2 = mc.full_frame([v * 1.5 + 2 for v in _B_TRAIN], [v - 3 for v in _A_TRAIN], a_rows=list(reversed(mc.A_ROWS)))
     d1["z"] = numpy.arange(n, dtype=float) + 0.5
     d2["z"] = [numpy.nan if k in cc.Z_NULLS_D2 else 10.0 + k for k in range(n)]
+    d1["x 1"] = [v * 0.5 - 1.25 for v in _B_TRAIN]
+    d2["x 1"] = [v * 2.0 + 7.5 for v in _A_TRAIN]
 
     def same(u, v):
         u, v = float(u), float(v)
